@@ -259,13 +259,17 @@ func offOf(buf []byte, v []byte) int {
 }
 
 // evalParse runs the real Session.Parse on a buffer with `spare` poisoned bytes of extra capacity.
-func evalParse(c cfg, spare int, b []byte) (impl string, fr packet.Frame, perr error, buf []byte) {
+func evalParse(c cfg, spare int, b []byte, stale ...byte) (impl string, fr packet.Frame, perr error, buf []byte) {
 	s := sessionFor(c)
+	if len(stale) > 0 {
+		spare = len(stale)
+	}
 	full := make([]byte, len(b)+spare)
 	copy(full, b)
 	for i := len(b); i < len(full); i++ {
 		full[i] = 0xa5 ^ byte(i*7)
 	}
+	copy(full[len(b):], stale) // spare capacity holding the tail of an earlier, longer packet
 	buf = full[:len(b)]
 	impl = core.Safely(func() string {
 		fr, perr = s.Parse(buf)
@@ -407,12 +411,19 @@ func Eval(c *core.Ctx, line string) *core.Case {
 			return nil
 		}
 		cf, ok := parseCfg(f[1:5])
-		spare, err := strconv.Atoi(f[5])
+		var stale []byte
+		spare, err := 0, error(nil)
+		if strings.HasPrefix(f[5], "x") { // x<hex>: explicit stale bytes in the spare capacity
+			stale = core.UnHex(f[5][1:])
+			spare = len(stale)
+		} else {
+			spare, err = strconv.Atoi(f[5])
+		}
 		if !ok || err != nil {
 			return nil
 		}
 		b := core.UnHex(f[6])
-		impl, _, _, _ := evalParse(cf, spare, b)
+		impl, _, _, _ := evalParse(cf, spare, b, stale...)
 		// the model is a function of the bytes within the length: it is sent the same line (spare ignored)
 		mline := "parse " + strings.Join(f[1:5], " ") + " " + f[6]
 		cs := &core.Case{Line: mline, Impl: impl, Trivial: len(b) < 14}
@@ -581,7 +592,7 @@ func transport(c *core.Ctx, proto int) []byte {
 		if r.Intn(3) == 0 {
 			doff = r.Intn(16)
 		}
-		return frames.TCP(frames.Pick(r, frames.Ports), r.Intn(65536), doff, byte(r.Intn(256)), data)
+		return frames.TCP(frames.Pick(r, frames.Ports), r.Intn(65536), doff, byte(r.Intn(256)), data, r.Intn(16)*r.Intn(2))
 	case 1:
 		return frames.ICMP([]int{0, 8, 3, 5, 11}[r.Intn(5)], 0, r.Intn(65536), r.Intn(10), data)
 	case 58:
@@ -692,6 +703,9 @@ func genParse(c *core.Ctx) {
 		if k%10 == 0 {
 			for n := 0; n <= len(fr); n++ {
 				add(c, "truncation", parseLine(cf, 0, fr[:n]))
+				if n < len(fr) && (n <= 60 || n%7 == 0) { // the rest of the frame left over in the spare capacity (reused receive buffer)
+					add(c, "truncation-stale", fmt.Sprintf("parse %s x%s %s", cf.key(), core.Hex(fr[n:]), core.Hex(fr[:n])))
+				}
 			}
 		}
 		for m := 0; m < 3; m++ {
@@ -794,8 +808,8 @@ func shapeView(c *core.Ctx, view string, b []byte) []byte {
 		set(5, 4)
 	case "ICMP4Redirect":
 		set(0, 137)
-		set(4, byte(r.Intn(4)))
-		set(5, byte([]int{4, 10, 4, 1}[r.Intn(4)]))
+		set(4, byte([]int{0, 1, 2, 3, 6, 25, 26, 51, 64, 128, 255}[r.Intn(11)]))
+		set(5, byte([]int{4, 10, 4, 1, 10, 4}[r.Intn(6)]))
 	case "ICMP6RouterSolicitation":
 		set(0, 133)
 		if r.Intn(2) == 0 {
